@@ -168,6 +168,17 @@ def case_extrapolate_lagrange(rep):
                 nodal = p(mesh.points)
                 vq = fem.Field(reg, dim=1, values=nodal.reshape(-1, 1)).interpolate()
                 got = fem.tools.extrapolate(vq, reg).ravel()
+                if order == 1:
+                    # the same region with the rule in tensor-product order (documented permute=False): the quadrature points are
+                    # not listed in the order of the cell's nodes
+                    Rp = {2: fem.RegionQuad, 3: fem.RegionHexahedron}[dim]
+                    mp = gen.build_mesh("quad" if dim == 2 else "hexahedron", "distorted", rng)[0]
+                    rp = Rp(mp, quadrature=fem.GaussLegendre(order=1, dim=dim, permute=False))
+                    nodal_p = p(mp.points)
+                    got_p = fem.tools.extrapolate(fem.Field(rp, dim=1, values=nodal_p.reshape(-1, 1)).interpolate(), rp).ravel()
+                    run.compare("post.extrapolate", "template=GaussLegendre(permute=False) clause=reproduces-multilinear", maxabs(got_p - nodal_p) / max(maxabs(nodal_p), 1e-300),
+                                1e-10, "extrapolate() on a region whose rule is in tensor-product order (permute=False) does not reproduce a multilinear field",
+                                unit="extrapolate:permute=False", config=("extrapolate-permute-false", dim))
                 grp = "order<=2" if order <= 2 else "order>=3"
                 run.compare("post.extrapolate", "template=RegionLagrange(%s) clause=reproduces-multilinear" % grp, maxabs(got - nodal) / max(maxabs(nodal), 1e-300), 1e-10,
                             "extrapolate() on a RegionLagrange of order %d (dim %d) does not reproduce a multilinear field at the points" % (order, dim),
